@@ -163,13 +163,13 @@ def _unit_subms(As):
             if any(A[i].timestamp + A[i].duration > A[i + 1].timestamp for i in range(len(A) - 1)):
                 continue
             B = mk(emb, b, "b")
-            t0 = _time.time()
+            t0 = _time.process_time()
             try:
                 out = union_no_overlap(A, B)
             except Exception as ex:
                 u.violation("union_no_overlap:raised", f"{type(ex).__name__}: {ex}", {"kind": "subms", "a": [list(x) for x in a], "b": [list(x) for x in b]})
                 continue
-            dt = _time.time() - t0
+            dt = _time.process_time() - t0  # CPU time: a loaded machine must not raise this alarm
             u.evaluations += 1
             u.transitions += 1
             u.states += 1
